@@ -247,10 +247,12 @@ sanitize_registry = {
             match=re.compile(_re_not_a_macro + r'|(?P<else>\b__LINE__\b)'),
             replace=lambda m: '0' if m['else'] else m[0]),
 
-        # Replace CONVERT argument in OPEN calls
+        # Replace CONVERT argument in OPEN calls, together with the comma that separates it
+        # from the preceding argument or, if it is the first argument, from the following one
         'CONVERT_ENDIAN': PPRule(
             match=re.compile((r'(?P<ws>^\s*)(?P<pre>OPEN\s*\(.*?)'
-                              r'(?P<convert>,?\s*CONVERT=[\'\"](?:BIG|LITTLE)_ENDIAN[\'\"]\s*)'
+                              r'(?P<convert>(?P<comma>,)?\s*CONVERT=[\'\"](?:BIG|LITTLE)_ENDIAN[\'\"]\s*'
+                              r'(?(comma)|(?:,\s*)?))'
                               r'(?P<post>.*?$)'), re.I),
             replace=r'\g<ws>\g<pre>\g<post>', postprocess=reinsert_convert_endian),
 
